@@ -104,7 +104,9 @@ DEFAULT_ERRNOS = ["ENOMEM", "EIO", "EINTR"]
 PERSISTENT = {"EMFILE", "ENFILE", "ENOMEM", "ENOBUFS", "ENOSPC", "EDQUOT"}
 QUICK_EXTRA = 6000        # quick: sampled (position, errno) cells outside the plausible sets
 QUICK_PAIRS = 4000        # quick: sampled two-fault cells
-QUICK_FAMILY = 10         # quick: parameter values per parametrised scenario family (spawn_combo has 64)
+QUICK_FAMILY = {"spawn_combo": 10, "fs_read_size": 8}   # quick: parameter values per family (default: all)
+LOW_MASKS = (1, 3, 7)     # "low descriptors free" mode: 0 / 0,1 / 0,1,2 closed during the window
+QUICK_LOW = 2500          # quick: sampled (scenario, mask, position, plausible errno) cells in that mode
 PAIR_ERRNOS_QUICK = 2
 
 # never failed: not part of the operation's contract with the kernel, or failing them without executing them
@@ -146,19 +148,19 @@ class Model(syslog.FdModel):
 
 
 class Case:
-    __slots__ = ("scn", "cid", "scope", "nr", "k", "ret", "idx", "count", "second", "sub")
+    __slots__ = ("scn", "cid", "scope", "nr", "k", "ret", "idx", "count", "second", "sub", "low")
 
-    def __init__(self, scn, cid, scope=-1, nr=0, k=0, ret=0, idx=-1, count=1, second=None, sub=None):
+    def __init__(self, scn, cid, scope=-1, nr=0, k=0, ret=0, idx=-1, count=1, second=None, sub=None, low=0):
         self.scn, self.cid, self.scope, self.nr, self.k, self.ret, self.idx = scn, cid, scope, nr, k, ret, idx
         self.count = count
         self.second = second   # (scope, nr, k as armed, ret, k as shown): a second fault later in the same operation
         self.sub = sub         # leaks already charged to the single-fault run this case extends
+        self.low = low         # bit mask of descriptors 0..2 that are closed ("free") during the window
 
     def line(self):
         s = "%d %d %d %d %d %d %d" % (self.scn, self.cid, self.scope, self.nr, self.k, self.ret, self.count)
-        if self.second:
-            s += " %d %d %d %d" % self.second[:4]
-        return s
+        s += " %d %d %d %d" % (self.second[:4] if self.second else (-1, 0, 0, 0))
+        return s + " %d" % self.low
 
     @property
     def nfaults(self):
@@ -203,6 +205,7 @@ class Window:
         self.problems = []        # (kind, text, fd, origin)
         self.inj_hit = False
         self.inj_hits = 0
+        self.recvmsg_seq = 0      # seq of the last successful recvmsg of the root process in the window
         self.created = 0
         self.closed = 0
         self.child_returned = False
@@ -252,6 +255,12 @@ def analyse(log_path):
                     in_op = False
                 elif code == R_HANDED and cur is not None:
                     cur.handed.append(e.a[1])
+                    # descriptors installed by recvmsg (SCM_RIGHTS) are invisible in the call's registers: the
+                    # model learns the reported ones here, unreported ones show up in the /proc snapshot
+                    t = model.tab.setdefault(root, {})
+                    if e.a[1] not in t and cur.recvmsg_seq:
+                        t[e.a[1]] = "recvmsg@%d" % cur.recvmsg_seq
+                        model.created += 1
                 elif code == R_SKIP:
                     w = wins.setdefault(e.a[2], Window())
                     w.skipped = e.a[3]
@@ -291,6 +300,8 @@ def analyse(log_path):
         if e.inj:
             cur.inj_hit = True
             cur.inj_hits += 1
+        elif e.nr == syslog.NR["recvmsg"] and e.ret >= 0 and e.tgid == root:
+            cur.recvmsg_seq = e.seq
         if e.tgid == root and in_op:
             cur.parent_seq.append(e)
         elif e.tgid in kids and e.tgid not in kid_execed:
@@ -307,7 +318,9 @@ def analyse(log_path):
                 cur.problems.append(("double-close", "%sclose(%d) -> EBADF at seq %d" % (who, fd, e.seq), fd, who))
             elif e.ret == 0 and e.tgid == root:
                 origin = tab.get(fd)
-                if origin is None:
+                if origin is None and cur.recvmsg_seq:
+                    pass  # a descriptor a recvmsg of this window installed (SCM_RIGHTS)
+                elif origin is None:
                     cur.problems.append(("unknown-close", "close(%d) = 0 of a descriptor the model does not know (seq %d)"
                                          % (fd, e.seq), fd, ""))
                 elif origin.startswith("inherited:"):
@@ -337,6 +350,8 @@ def judge(w):
     for fd, tgt in sorted(after.items()):
         if fd not in base:
             o = origin_name((w.model_tab or {}).get(fd))
+            if o == "unknown" and w.recvmsg_seq:
+                o = "recvmsg"   # installed by the kernel through SCM_RIGHTS and never reported to the caller
             leaks[o] += 1
             leak_detail.append({"fd": fd, "target": tgt, "created_by": (w.model_tab or {}).get(fd)})
         elif base[fd] != tgt:
@@ -371,20 +386,25 @@ def _run_batch(sysmon, probe, cases, workdir, tag, timeout_s):
     return dict(argv=cmd, timeout=timeout_s + 20), log
 
 
-def run_cases(ck, sysmon, probe, cases, workdir, nshard, label, timeout_s=60):
-    """Run cases in shards (one tracee per shard); cases whose tracee died or hung are reported inconclusive
-    and the rest of that shard is re-run. -> {cid: Window}"""
+CHUNK = 250   # cases per tracee: short batches keep the watchdog short and a hang cheap
+NAMES = {}    # plan id -> scenario name (filled by run), for messages only
+
+
+def run_cases(ck, sysmon, probe, cases, workdir, nshard, label, timeout_s=30):
+    """Run cases in batches (one tracee per batch of <= CHUNK cases, 2 x NCPU batches at a time); cases whose
+    tracee died or hung are reported inconclusive and the rest of that batch is re-run. -> {cid: Window}"""
     out = {}
-    shards = [cases[i::nshard] for i in range(nshard)]
+    nchunk = max(nshard, (len(cases) + CHUNK - 1) // CHUNK)
+    shards = [cases[i::nchunk] for i in range(nchunk)]
     shards = [s for s in shards if s]
     rnd = 0
-    while shards and rnd < 6:
+    while shards and rnd < 8:
         jobs, logs = [], []
         for i, s in enumerate(shards):
             j, log = _run_batch(sysmon, probe, s, workdir, "%s-%d-%d" % (label, rnd, i), timeout_s)
             jobs.append(j)
             logs.append(log)
-        res = vlib.run_parallel(jobs)
+        res = vlib.run_parallel(jobs, nproc=vlib.NCPU * 2)
         nxt = []
         for s, r, log in zip(shards, res, logs):
             try:
@@ -405,9 +425,11 @@ def run_cases(ck, sysmon, probe, cases, workdir, nshard, label, timeout_s=60):
                     stuck = c
                     break
             if stuck is not None:
-                ck.note_inconclusive("%s: tracee %s in case %s (scenario id %d, fault %s ret %d); rc=%s stderr=%s"
-                                     % (label, "hung" if (r["timed_out"] or r["rc"] == 124) else "died", stuck.cid, stuck.scn,
-                                        stuck.fault(), stuck.ret, r["rc"], r["err"][-300:].replace("\n", " | ")))
+                ck.note_inconclusive("%s: tracee %s in scenario %s (descriptors closed beforehand: mask %d), fault %s errno %s; "
+                                     "rc=%s stderr=%s"
+                                     % (label, "hung" if (r["timed_out"] or r["rc"] == 124) else "died",
+                                        NAMES.get(stuck.scn, stuck.scn), stuck.low, stuck.fault(), stuck.errnos(), r["rc"],
+                                        r["err"][-300:].replace("\n", " | ")))
                 rest = s[done + 1:]
                 if rest:
                     nxt.append(rest)
@@ -451,6 +473,7 @@ def run(ck, replay=None):
         with open(replay) as f:
             rep = json.load(f).get("detail", {})
         only = rep.get("scenario")
+    NAMES.update(names)
     workdir = tempfile.mkdtemp(prefix="c12-")
     try:
         return _run(ck, quick, probe, sysmon, names, family, workdir, only, rep)
@@ -472,7 +495,7 @@ def _run(ck, quick, probe, sysmon, names, family, workdir, only, rep):
         drop = set()
         for f, members in sorted(fam.items()):
             rng.shuffle(members)
-            drop.update(members[QUICK_FAMILY:])
+            drop.update(members[QUICK_FAMILY.get(f, len(members)):])
         ids = [i for i in ids if i not in drop]
     # ---------------- phase 1: un-injected runs (success / natural-error paths + call sequences) ------------
     order = list(ids)
@@ -482,7 +505,13 @@ def _run(ck, quick, probe, sysmon, names, family, workdir, only, rep):
     for i in order:
         cid += 1
         base_cases.append(Case(i, cid))
-    base = run_cases(ck, sysmon, probe, base_cases, workdir, min(8, len(base_cases)), "dry")
+    for i in order:
+        for m in LOW_MASKS:
+            cid += 1
+            base_cases.append(Case(i, cid, low=m))
+    if rep:
+        base_cases = [c for c in base_cases if c.low == rep.get("low", 0)]
+    base = run_cases(ck, sysmon, probe, base_cases, workdir, min(vlib.NCPU, len(base_cases)), "dry")
     base_leaks = {}
     base_other = {}   # steal / double-close kinds the un-injected run shows already (charged there only)
     plans = []
@@ -498,28 +527,34 @@ def _run(ck, quick, probe, sysmon, names, family, workdir, only, rep):
         nscn += 1
         report(ck, names, c, w, None)
         leaks, _d, _o = judge(w)
-        base_leaks[c.scn] = leaks
-        base_other[c.scn] = {kind for kind, _t in _o}
+        base_leaks[(c.scn, c.low)] = leaks
+        base_other[(c.scn, c.low)] = {kind for kind, _t in _o}
         # fault positions
         occ = collections.Counter()
         for idx, e in enumerate(w.parent_seq):
             k = occ[e.nr]
             occ[e.nr] += 1
             if injectable(e):
-                plans.append((c.scn, 1, e.nr, k, idx))
+                plans.append((c.scn, 1, e.nr, k, idx, c.low))
         occ = collections.Counter()
         for idx, e in enumerate(w.child_seq):
             k = occ[e.nr]
             occ[e.nr] += 1
             if injectable(e):
-                plans.append((c.scn, 2, e.nr, k, idx))
-    ck.count("scenarios", nscn)
+                plans.append((c.scn, 2, e.nr, k, idx, c.low))
+    ck.count("scenario_variants", nscn)
+    ck.count("scenarios", len(ids))
     # ---------------- phase 2: one case per (scenario, call index, errno) -----------------------------------
     cases = []
     ck.count("fault_positions", len(plans))
     extra = []
-    for scn, scope, nr, k, idx in plans:
+    lowcells = []
+    for scn, scope, nr, k, idx, low in plans:
         plaus = [E[n] for n in PLAUSIBLE.get(nrname(nr), DEFAULT_ERRNOS)]
+        if low:
+            # low-descriptor mode: single plausible faults only (thorough: all, quick: seeded sample)
+            lowcells += [(scn, scope, nr, k, idx, en, low) for en in plaus]
+            continue
         # every plausible errno at every position ...
         for en in plaus:
             cid += 1
@@ -539,10 +574,16 @@ def _run(ck, quick, probe, sysmon, names, family, workdir, only, rep):
     for scn, scope, nr, k, idx, en in extra:
         cid += 1
         cases.append(Case(scn, cid, scope, nr, k, -en, idx))
+    if quick and not rep:
+        rng.shuffle(lowcells)
+        lowcells = lowcells[:QUICK_LOW]
+    for scn, scope, nr, k, idx, en, low in lowcells:
+        cid += 1
+        cases.append(Case(scn, cid, scope, nr, k, -en, idx, low=low))
     if rep and rep.get("fault"):
         f1 = rep["fault"].split("-then-")[0]
         e1 = (rep.get("errno") or "").split(",")[0]
-        cases = [c for c in cases if c.fault() == f1 and (not e1 or c.errnos() == e1)]
+        cases = [c for c in cases if c.fault() == f1 and (not e1 or c.errnos() == e1) and c.low == rep.get("low", 0)]
     rng.shuffle(cases)
     nshard = max(1, min(len(cases), vlib.NCPU * 2))
     got = run_cases(ck, sysmon, probe, cases, workdir, nshard, "inj")
@@ -555,9 +596,9 @@ def _run(ck, quick, probe, sysmon, names, family, workdir, only, rep):
             ck.count("cases_setup_skipped")
             ck.count("cases_setup_skipped/%s/reason%d" % (names[c.scn], w.skipped))
             continue
-        report(ck, names, c, w, base_leaks.get(c.scn), base_other.get(c.scn))
+        report(ck, names, c, w, base_leaks.get((c.scn, c.low)), base_other.get((c.scn, c.low)))
         # ---------------- phase 3 plan: a second fault at every call that follows the first one ----------------
-        if c.count != 1 or not w.inj_hit or -c.ret not in [E[n] for n in PLAUSIBLE.get(nrname(c.nr), DEFAULT_ERRNOS)]:
+        if c.low or c.count != 1 or not w.inj_hit or -c.ret not in [E[n] for n in PLAUSIBLE.get(nrname(c.nr), DEFAULT_ERRNOS)]:
             continue
         hit = [e for e in w.parent_seq + w.child_seq if e.inj]
         if len(hit) != 1:
@@ -585,14 +626,15 @@ def _run(ck, quick, probe, sysmon, names, family, workdir, only, rep):
         cid += 1
         pcases.append(Case(c.scn, cid, c.scope, c.nr, c.k, c.ret, c.idx, 1, second, fl))
     if rep and rep.get("fault"):
-        pcases = [c for c in pcases if c.fault() == rep["fault"] and (not rep.get("errno") or c.errnos() == rep["errno"])]
+        pcases = [c for c in pcases if c.fault() == rep["fault"] and (not rep.get("errno") or c.errnos() == rep["errno"])
+                  and not rep.get("low")]
     ck.count("fault_pair_cells", len(pcases))
     got = run_cases(ck, sysmon, probe, pcases, workdir, max(1, min(len(pcases), vlib.NCPU * 2)), "pair")
     for c in pcases:
         w = got.get(c.cid)
         if w is None or (w.skipped is not None and not w.ended):
             continue
-        report(ck, names, c, w, base_leaks.get(c.scn), base_other.get(c.scn))
+        report(ck, names, c, w, base_leaks.get((c.scn, c.low)), base_other.get((c.scn, c.low)))
     ck.exhaustive = False
     ck.extra["scenarios"] = [names[i] for i in ids]
     ck.assume("a fault = the call is not executed and returns -errno (ptrace); close, exit, munmap and allocator calls "
@@ -612,8 +654,11 @@ def _run(ck, quick, probe, sysmon, names, family, workdir, only, rep):
 
 def report(ck, names, c, w, base_leaks, base_other=None):
     """Feed one completed window into the Check."""
-    full = names[c.scn]
-    name = full.split(":")[0]      # parametrised families share signatures and fault cells
+    full = names[c.scn] + ("@low%s" % "".join(str(i) for i in range(3) if c.low & (1 << i)) if c.low else "")
+    # parametrised families and the three low-descriptor masks share signatures and fault cells
+    name = names[c.scn].split(":")[0] + ("@low" if c.low else "")
+    if c.low:
+        ck.count("windows_low_descriptors_free")
     ck.add_eval(1)
     ck.count("windows")
     ck.count("syscalls_in_windows", w.nsys)
@@ -656,6 +701,7 @@ def report(ck, names, c, w, base_leaks, base_other=None):
     for p in w.problems:
         if p[0] == "unknown-close":
             ck.count("model_unknown_close")
+            ck.count("model_unknown_close/%s" % name)
     # model vs ground truth
     if w.model_tab is not None and set(w.model_tab) != set(w.after):
         ck.count("model_vs_proc_mismatch")
@@ -666,7 +712,7 @@ def report(ck, names, c, w, base_leaks, base_other=None):
         when = None  # fault never reached: identical to the un-injected run, already judged there
     else:
         when = "-on-error" if is_err else "-on-success"
-    detail = {"scenario": full, "fault": fault if reached else None,
+    detail = {"scenario": names[c.scn], "low": c.low, "fault": fault if reached else None,
               "errno": c.errnos(), "call_index": c.idx if c.injected else None,
               "op_result": "Err(%d)" % code if is_err else "Ok", "baseline": w.baseline, "after": w.after,
               "calls": (["%s=%d%s" % (nrname(e.nr), e.ret, "!" if e.inj else "") for e in w.parent_seq]
